@@ -80,6 +80,12 @@ impl RangeListTable {
         have_unit_base_address: bool,
     ) -> Result<RangeListOffsets> {
         let mut offsets = Vec::new();
+        // The value of the first word of a base address selection entry.
+        // A range that begins with this value would be read back as a base address.
+        let marker = match address_size {
+            1..=8 => !0u64 >> (64 - u32::from(address_size) * 8),
+            _ => return Err(Error::UnsupportedWordSize(address_size)),
+        };
         for range_list in self.ranges.iter() {
             let mut have_base_address = have_unit_base_address;
             offsets.push(w.offset());
@@ -89,7 +95,6 @@ impl RangeListTable {
                 // than required, but still seems reasonable.
                 match *range {
                     Range::BaseAddress { address } => {
-                        let marker = !0 >> (64 - address_size * 8);
                         w.write_udata(marker, address_size)?;
                         w.write_address(address, address_size)?;
                         have_base_address = true;
@@ -101,6 +106,9 @@ impl RangeListTable {
                         if !have_base_address {
                             return Err(Error::MissingBaseAddress);
                         }
+                        if begin == marker {
+                            return Err(Error::InvalidRange);
+                        }
                         w.write_udata(begin, address_size)?;
                         w.write_udata(end, address_size)?;
                     }
@@ -110,6 +118,9 @@ impl RangeListTable {
                         }
                         if have_base_address {
                             return Err(Error::UnexpectedBaseAddress);
+                        }
+                        if begin == Address::Constant(marker) {
+                            return Err(Error::InvalidRange);
                         }
                         w.write_address(begin, address_size)?;
                         w.write_address(end, address_size)?;
@@ -127,6 +138,9 @@ impl RangeListTable {
                         }
                         if have_base_address {
                             return Err(Error::UnexpectedBaseAddress);
+                        }
+                        if begin == Address::Constant(marker) {
+                            return Err(Error::InvalidRange);
                         }
                         w.write_address(begin, address_size)?;
                         w.write_address(end, address_size)?;
